@@ -18,11 +18,13 @@ fn precedence(new_first: bool, legacy_ty: u16) {
             put16(&mut body, 0);
             body.extend_from_slice(&new_rgba);
         } else {
-            put32(&mut body, 7 + 6);
+            // legacy chunk: one packet with TWO colours (indices 0 and 1) -- more than the new chunk covers
+            put32(&mut body, 10 + 6);
             put16(&mut body, legacy_ty);
             put16(&mut body, 1);
             body.push(0);
-            body.push(1);
+            body.push(2);
+            body.extend_from_slice(&old_rgb);
             body.extend_from_slice(&old_rgb);
         }
     }
@@ -41,7 +43,7 @@ fn precedence(new_first: bool, legacy_ty: u16) {
     let p = info.palette.as_ref().unwrap();
     let e = p.color(0).unwrap();
     assert!(e.raw_rgba8() == new_rgba, "the new-format palette wins over the legacy chunk");
-    assert!(p.num_colors() == 1);
+    assert!(p.num_colors() == 1 && p.color(1).is_none(), "nothing of the legacy palette survives (it covered index 1 as well)");
     kani::cover!(new_rgba[3] != 255 && new_rgba[0] != old_rgb[0]);
     core::mem::forget(r);
     core::mem::forget(info);
@@ -50,6 +52,7 @@ fn precedence(new_first: bool, legacy_ty: u16) {
 #[kani::unwind(9)]
 #[kani::stub(alloc::fmt::format, crate::vklib::empty_format)]
 #[kani::stub(std::collections::HashMap::insert, crate::vklib::hm_insert)]
+#[kani::stub(std::collections::HashMap::with_hasher, crate::vklib::hm_with_hasher)]
 #[kani::stub(crate::palette::ColorPalette::color, crate::vklib::side_color)]
 #[kani::stub(std::collections::HashMap::len, crate::vklib::hm_len)]
 #[kani::stub(std::hash::RandomState::new, crate::vklib::fixed_random_state)]
@@ -60,6 +63,7 @@ fn c11_q_new_palette_then_legacy() {
 #[kani::unwind(9)]
 #[kani::stub(alloc::fmt::format, crate::vklib::empty_format)]
 #[kani::stub(std::collections::HashMap::insert, crate::vklib::hm_insert)]
+#[kani::stub(std::collections::HashMap::with_hasher, crate::vklib::hm_with_hasher)]
 #[kani::stub(crate::palette::ColorPalette::color, crate::vklib::side_color)]
 #[kani::stub(std::collections::HashMap::len, crate::vklib::hm_len)]
 #[kani::stub(std::hash::RandomState::new, crate::vklib::fixed_random_state)]
@@ -70,6 +74,7 @@ fn c11_q_legacy_then_new_palette() {
 #[kani::unwind(9)]
 #[kani::stub(alloc::fmt::format, crate::vklib::empty_format)]
 #[kani::stub(std::collections::HashMap::insert, crate::vklib::hm_insert)]
+#[kani::stub(std::collections::HashMap::with_hasher, crate::vklib::hm_with_hasher)]
 #[kani::stub(crate::palette::ColorPalette::color, crate::vklib::side_color)]
 #[kani::stub(std::collections::HashMap::len, crate::vklib::hm_len)]
 #[kani::stub(std::hash::RandomState::new, crate::vklib::fixed_random_state)]
@@ -80,6 +85,7 @@ fn c11_q_new_palette_then_legacy_0011() {
 #[kani::unwind(9)]
 #[kani::stub(alloc::fmt::format, crate::vklib::empty_format)]
 #[kani::stub(std::collections::HashMap::insert, crate::vklib::hm_insert)]
+#[kani::stub(std::collections::HashMap::with_hasher, crate::vklib::hm_with_hasher)]
 #[kani::stub(crate::palette::ColorPalette::color, crate::vklib::side_color)]
 #[kani::stub(std::collections::HashMap::len, crate::vklib::hm_len)]
 #[kani::stub(std::hash::RandomState::new, crate::vklib::fixed_random_state)]
